@@ -30,7 +30,7 @@ struct Model {
 #[derive(Debug, Hash)]
 enum Op {
     Honest { client: usize, lost_up: bool, lost_down: bool },
-    Tick { ms: u64, lost: Vec<bool> },
+    Tick { ms: u64, split: bool, lost: Vec<bool> },
     ClientDisconnect { client: usize, delivered: bool },
     ServerDisconnect { id: u64 },
     Replay { of: usize, from_own: bool },
@@ -157,7 +157,7 @@ impl Property for C10 {
         "exploration"
     }
     fn rule(&self) -> String {
-        "A case = secure server with max_clients 1-4 (raised and lowered at run time in some cases), up to 8 client objects over 4 identities and 5 addresses (several tokens per identity, several clients per address, one token per client object), spawned at any time. Steps: lossy honest handshake steps, server ticks with lossy keep-alive delivery and clock steps up to beyond the timeout, client disconnects (delivered or lost), server.disconnect(id), genuine payloads, replays of any earlier client datagram from its own or another address, responses from a half-open address sealed with one of its own tokens' keys but echoing the challenge issued for another id (must never connect; in half of the cases every token seals the same user data), raising and lowering the limit (the bound on the count is only asserted in cases that never lower it, as the statement says; everything else is asserted always). Oracles after every step: clients_id pairwise distinct, client_addr pairwise distinct, connected_clients == |clients_id| <= max_clients; the outputs ClientConnected / ClientDisconnected alternate per id, a disconnect names the id and address of the open connect, none without one, a connect never happens while the server is full nor for an id or address already connected, its id / address / user data are those of the triggering client's token; a session is ended by a datagram only if that is its own client's unmodified disconnect packet; the set of ids in the table equals the set opened by the event stream; lookups by id return the authenticated session's address and user data; a genuine payload of a session surfaces under its id; generate_payload_packet(id) succeeds exactly for connected ids, is addressed to the authenticated session's address and is sealed with that session's key (probed for one of the four identities at every payload step, connected or not). Non-trivial: >= 2 sessions open or half-open at once and >= 1 refused, raced or replayed handshake. Distinct = hash of the decoded operation trace.".into()
+        "A case = secure server with max_clients 1-4 (raised and lowered at run time in some cases), up to 8 client objects over 4 identities and 5 addresses (several tokens per identity, several clients per address, one token per client object), spawned at any time. Steps: lossy honest handshake steps, server ticks with lossy keep-alive delivery and clock steps up to beyond the timeout, client disconnects (delivered or lost), server.disconnect(id), genuine payloads, replays of any earlier client datagram from its own or another address, responses from a half-open address sealed with one of its own tokens' keys but echoing the challenge issued for another id (must never connect; in half of the cases every token seals the same user data), raising and lowering the limit (the bound on the count is only asserted in cases that never lower it, as the statement says; everything else is asserted always). Oracles after every step: clients_id pairwise distinct, client_addr pairwise distinct, connected_clients == |clients_id| <= max_clients; the outputs ClientConnected / ClientDisconnected alternate per id, a disconnect names the id and address of the open connect, none without one, a connect never happens while the server is full nor for an id or address already connected, its id / address / user data are those of the triggering client's token; a session is ended by a datagram only if that is its own client's unmodified disconnect packet; the set of ids in the table equals the set opened by the event stream; lookups by id return the authenticated session's address and user data; a genuine payload of a session surfaces under its id; generate_payload_packet(id) succeeds exactly for connected ids, is addressed to the authenticated session's address and is sealed with that session's key (probed for one of the four identities at every payload step, connected or not). About a quarter of the server ticks are split as a transport splits them: update(dt), then one or two clients' datagrams, then update_client for every id - so requests and responses also meet sessions that have run into their timeout and are not swept yet. Non-trivial: >= 2 sessions open or half-open at once and >= 1 refused, raced or replayed handshake. Distinct = hash of the decoded operation trace.".into()
     }
     fn assumptions(&self) -> Vec<String> {
         vec!["one token per client object (re-using a token for a second session re-uses its keys; outside the statement)".into(), "lowering max_clients disconnects nobody (set_max_clients changes the limit only)".into()]
@@ -166,7 +166,7 @@ impl Property for C10 {
         PbtCfg { cases: tier.pick(300_000, 5_000_000), max_len: tier.pick(600, 2000), shrink_ms: 120_000 }
     }
     fn required_labels(&self) -> Vec<&'static str> {
-        vec!["two_open", "same_id_two_pending", "same_addr_two_tokens", "full_refused", "timeout_disconnect", "client_disconnect", "server_disconnect", "replay", "limit_raised", "limit_lowered", "payload_ok", "payload_routed", "cross_response", "shared_user_data"]
+        vec!["two_open", "same_id_two_pending", "same_addr_two_tokens", "full_refused", "timeout_disconnect", "client_disconnect", "server_disconnect", "replay", "limit_raised", "limit_lowered", "payload_ok", "payload_routed", "cross_response", "shared_user_data", "datagrams_inside_tick"]
     }
     fn run_choices(&self, ctx: &mut Ctx) -> Outcome {
         let seed16 = ctx.src.u16() as u64;
@@ -242,7 +242,40 @@ impl Property for C10 {
                     let ms = ctx.src.pick(&[100u64, 260, 1000, 2100, 3500, 6000]);
                     let dt = Duration::from_millis(ms);
                     nw.now += dt;
-                    let outs = nw.server_tick(0, dt);
+                    // a transport's tick is update(dt), then the datagrams waiting in the socket, then update_client for every id: in about a
+                    // quarter of the ticks one or two clients' datagrams are processed inside that window (a session that has just run into its
+                    // timeout is still in the table then)
+                    let split = ctx.src.chance(70);
+                    let outs = if split {
+                        ctx.label("datagrams_inside_tick");
+                        nw.server_advance(0, dt);
+                        for _ in 0..1 + ctx.src.below(2) {
+                            let c = ctx.src.below(n);
+                            let cdt = Duration::from_millis(ctx.src.pick(&[260u64, 60]));
+                            let before = nw.servers[0].server.connected_clients();
+                            if let Some(did) = nw.client_update(c, cdt) {
+                                let d = nw.pool[did].clone();
+                                nw.pool[did].presented += 1;
+                                m.first_seen_gen.insert(did, m.generation.get(&c).copied().unwrap_or(0));
+                                let out = nw.server_recv(0, d.src, &d.bytes);
+                                m.on_out(&nw, &out, Some((did, Emitter::Client(c), true)), Some(d.src), before)?;
+                                if let SrvOut::Send { did: r, .. } | SrvOut::Connected { did: r, .. } = &out {
+                                    let b = nw.pool[*r].bytes.clone();
+                                    nw.client_recv(c, &b);
+                                }
+                            }
+                        }
+                        let mut outs = vec![];
+                        for id in nw.servers[0].server.clients_id() {
+                            let o = nw.server_update_client(0, id);
+                            if o != SrvOut::None {
+                                outs.push(o);
+                            }
+                        }
+                        outs
+                    } else {
+                        nw.server_tick(0, dt)
+                    };
                     let mut lost = vec![];
                     for o in outs {
                         let before = nw.servers[0].server.connected_clients();
@@ -258,7 +291,7 @@ impl Property for C10 {
                             }
                         }
                     }
-                    Op::Tick { ms, lost }
+                    Op::Tick { ms, split, lost }
                 }
                 2 => {
                     let c = ctx.src.below(n);
